@@ -30,14 +30,15 @@ func TestMain(m *testing.M) { vh.Main(m) }
 type verdict struct{ sig, msg string }
 
 type stopCase struct {
-	Kind      string `json:"kind"`     // tcp, redis
-	Occupied  int    `json:"occupied"` // the port is held by another listener for about this many bind retries (0: free)
-	Backend   string `json:"backend"`  // responsive, silent, closed, chatty
-	Conns     int    `json:"conns"`    // client connections established before the stop (0 if the stop comes earlier)
-	InFlight  int    `json:"in_flight"`
-	StopAt    string `json:"stop_at"` // immediately, before-start, before-bind, retry-sleep, after-bind, before-accept, serving
-	DrainFirst bool  `json:"drain_first"`
-	HoldMs    int    `json:"hold_ms"`
+	Kind       string `json:"kind"`     // tcp, redis
+	Occupied   int    `json:"occupied"` // the port is held by another listener for about this many bind retries (0: free)
+	Backend    string `json:"backend"`  // responsive, silent, closed, chatty
+	Conns      int    `json:"conns"`    // client connections established before the stop (0 if the stop comes earlier)
+	InFlight   int    `json:"in_flight"`
+	StopAt     string `json:"stop_at"` // immediately, before-start, before-bind, retry-sleep, after-bind, before-accept, serving
+	DrainFirst bool   `json:"drain_first"`
+	DrainOnly  bool   `json:"drain_only"` // only StopListen is called at the point; Stop follows after the port was probed
+	HoldMs     int    `json:"hold_ms"`
 }
 
 const stopDeadline = 10 * time.Second
@@ -133,6 +134,13 @@ func checkStop(c stopCase) (nt bool, v *verdict) {
 	// port: occupied by a plain (non reuseport) listener for the first retries
 	var port uint32
 	var occupier net.Listener
+	if c.DrainOnly && c.Occupied == 0 {
+		// a known port, so the listener can be probed even if it never reports its address
+		if l, err := net.Listen("tcp", "127.0.0.1:0"); err == nil {
+			port = uint32(l.Addr().(*net.TCPAddr).Port)
+			l.Close()
+		}
+	}
 	if c.Occupied > 0 {
 		l, err := net.Listen("tcp", "127.0.0.1:0")
 		if err != nil {
@@ -166,12 +174,44 @@ func checkStop(c stopCase) (nt bool, v *verdict) {
 	stopCalled := make(chan struct{})
 	stopReturned := make(chan struct{})
 	var once sync.Once
+	probeAddr := ""
+	if port != 0 {
+		probeAddr = fmt.Sprintf("127.0.0.1:%d", port)
+	}
+	var drainVerdict *verdict
 	doStop := func() {
 		once.Do(func() {
 			close(stopCalled)
 			go func() {
-				if c.DrainFirst {
+				if c.DrainFirst || c.DrainOnly {
 					p.StopListen()
+				}
+				if c.DrainOnly && probeAddr != "" && c.Occupied == 0 {
+					// after StopListen returned the service must not accept any more, however the drain was timed
+					// relative to the bind: probe for a while (the bind may complete after the drain)
+					deadline := time.Now().Add(700 * time.Millisecond)
+					for time.Now().Before(deadline) && drainVerdict == nil {
+						if cl, err := net.DialTimeout("tcp", probeAddr, 200*time.Millisecond); err == nil {
+							served := false
+							cl.SetDeadline(time.Now().Add(300 * time.Millisecond))
+							if c.Kind == "redis" {
+								cl.Write([]byte("PING\r\n"))
+								b := make([]byte, 8)
+								n, _ := cl.Read(b)
+								served = n > 0
+							} else if c.Backend == "responsive" {
+								cl.Write([]byte("x"))
+								b := make([]byte, 8)
+								n, _ := cl.Read(b)
+								served = n > 0
+							}
+							cl.Close()
+							if served {
+								drainVerdict = &verdict{"accepts-after-drain", fmt.Sprintf("StopListen was called %s (and returned), yet a new connection to %s was served afterwards", c.StopAt, probeAddr)}
+							}
+						}
+						time.Sleep(20 * time.Millisecond)
+					}
 				}
 				p.Stop()
 				close(stopReturned)
@@ -257,6 +297,9 @@ func checkStop(c stopCase) (nt bool, v *verdict) {
 		_ = d1
 		return nt, &verdict{"stop-never-returns", fmt.Sprintf("Stop (drain first: %v) called %s did not return within %v; service goroutines still parked:\n%s", c.DrainFirst, c.StopAt, stopDeadline, where)}
 	}
+	if drainVerdict != nil {
+		return nt, drainVerdict
+	}
 	// the port is closed
 	if addr == "" {
 		addr = p.Address()
@@ -323,11 +366,14 @@ func waitOr(ch chan struct{}, d time.Duration) chan struct{} {
 
 func genStop(t *rapid.T) stopCase {
 	c := stopCase{Kind: rapid.SampledFrom([]string{"tcp", "redis"}).Draw(t, "kind"),
-		Backend: rapid.SampledFrom([]string{"responsive", "responsive", "silent", "closed", "chatty"}).Draw(t, "backend"),
-		StopAt:  rapid.SampledFrom([]string{"immediately", "before-start", "before-bind", "retry-sleep", "after-bind", "before-accept", "serving", "serving", "serving"}).Draw(t, "stopat"),
+		Backend:    rapid.SampledFrom([]string{"responsive", "responsive", "silent", "closed", "chatty"}).Draw(t, "backend"),
+		StopAt:     rapid.SampledFrom([]string{"immediately", "before-start", "before-bind", "retry-sleep", "after-bind", "before-accept", "serving", "serving", "serving"}).Draw(t, "stopat"),
 		DrainFirst: rapid.IntRange(0, 2).Draw(t, "drain") == 0, HoldMs: rapid.SampledFrom([]int{0, 1, 5, 30}).Draw(t, "hold")}
 	if c.StopAt == "retry-sleep" || rapid.IntRange(0, 5).Draw(t, "occ") == 0 {
 		c.Occupied = 1
+	}
+	if c.StopAt != "before-start" && rapid.IntRange(0, 2).Draw(t, "drainonly") == 0 {
+		c.DrainOnly = true
 	}
 	if c.StopAt == "serving" {
 		c.Conns = rapid.IntRange(0, 5).Draw(t, "conns")
